@@ -155,12 +155,15 @@ def _run_with_autofix(cmd, out, text, linemap, meta, repo, tpath):
     """run Verus; on `cannot find value` / `no method named` retry once each with the
     auto-included constant / helper (rules X1:auto-const, X12:auto-helper)"""
     p = subprocess.run(cmd, cwd=WORK, capture_output=True, text=True)
-    if "cannot find value `" in p.stderr:
+    for _ in range(3):  # an auto-included constant may itself name further constants
+        if "cannot find value `" not in p.stderr:
+            break
         auto = _auto_consts(text, linemap, meta, repo, p.stderr, tpath)
-        if auto:
-            text, linemap = auto
-            open(out, "w").write(text)
-            p = subprocess.run(cmd, cwd=WORK, capture_output=True, text=True)
+        if not auto:
+            break
+        text, linemap = auto
+        open(out, "w").write(text)
+        p = subprocess.run(cmd, cwd=WORK, capture_output=True, text=True)
     if "no method named `" in p.stderr:
         auto = _auto_helpers(text, linemap, meta, repo, p.stderr, tpath)
         if auto:
